@@ -75,6 +75,7 @@ Definition py_add (a b : pyv) : pres pyv :=
   | VInt x, VInt y => POk (VInt (x + y))
   | VList l, VList m => POk (VList (l ++ m)%list)
   | VMat d t, VMat e u => if Nat.eqb d e then POk (VMat d (t ++ u)%list) else PErr "ValueError"
+  | VApp _ _, VApp _ _ => POk (VApp "add" [a; b])                 (* sum of two oracle results *)
   | _, _ => match as_num a, as_num b with Some x, Some y => POk (VNum (nadd x y)) | _, _ => type_error end
   end.
 Fixpoint scale_terms (c : pnum) (t : list fterm) : pres (list fterm) :=
@@ -176,6 +177,7 @@ Definition np_kron (a b : pyv) : pres pyv :=
   match a, b with
   | VMat d t, VMat e u => pbind (kron_terms t u) (fun w => POk (VMat (d * e) w))
   | VApp "kronvec" l, VApp "kronvec" m => POk (VApp "kronvec" (l ++ m)%list)
+  | VApp _ _, VApp _ _ => POk (VApp "kron" [a; b])
   | _, _ => type_error
   end.
 Definition lit_entry (v : pyv) : option (Z * Z) := match v with VInt z => Some (z, 0%Z) | VC r i => Some (r, i) | VBool b => Some ((if b then 1 else 0)%Z, 0%Z) | _ => None end.
